@@ -10,6 +10,7 @@ import json, subprocess, sys, glob, os, re
 KF = '/verif/known_findings.json'
 # subject prefix -> (property, id) for fixes made by the main session
 FIXMAP = [
+ ("fix: a call or '...' assigned to more than 509 variables", ("C07", "F-CMP-NRET")),
  ("fix: the explist of a generic for was adjusted", ("C01", "F-GENFOR")),
  ("fix: x % y gave -0 for a negative x", ("C01", "F-MOD0")),
  ("fix: building the traceback of a function called through an empty field name", ("C05", "F-ERR-EMPTYNAME")),
